@@ -26,7 +26,7 @@ import core
 import lib_evalorder as le
 
 PROP = "C20"
-CFG = {"quick": ("EvalOrder_quick", 24), "thorough": ("EvalOrder_thorough", 3)}
+CFG = {"quick": ("EvalOrder_quick", 24), "thorough": ("EvalOrder_thorough", 6)}
 BATCH = 220          # functions per generated module
 ALL_FORMS = {"getitem", "slice", "getattr", "add", "neg", "lt", "lt3", "in", "notin", "and", "or", "not", "cond",
              "tuple", "list", "set", "dict1", "dict2", "fstr", "fspec", "ret", "assign", "aug", "unpack",
